@@ -245,10 +245,20 @@ def rule_propagation(ck: Check, repo: Repo, qual: str, rid: str, full: bool) -> 
     ck.analysed_fn(qual)
     objs: set[str] = set()
     hooks = GenHooks(objs)
-    leaves = tabulate(fn, hooks)
+    def ref(v):
+        out = {"error": v("each result in results::error")}
+        if full:
+            out["in_map"] = v("each (name, path) in project.licenses.items()::in_map")
+            out["deprecated"] = v("each (name, path) in project.licenses.items()::deprecated") if out["in_map"] else False
+        return out
+
+    leaves = tabulate(fn, hooks, ref)
     r.floor(2 if not full else 6, "paths through generate", got=len(leaves))
-    for d, leaf, _ in leaves:
-        short = {k.split("::")[-1]: v for k, v in d.items()}
+    for d, leaf, spec in leaves:
+        short = dict(spec)
+        extra_atoms = {k: v for k, v in d.items() if k.split("::")[-1] not in spec}
+        if extra_atoms:
+            short.update({k.split("::")[-1]: v for k, v in extra_atoms.items()})
         ev = flat(leaf.events)
         r.instance("path:" + show_valuation(short), {"valuation": show_valuation(short),
                                                      "events": [repr(e) for _, e in ev][:12]})
